@@ -309,6 +309,8 @@ HARNESSES = [
 
 from harness import density as _density  # noqa: E402
 HARNESSES = HARNESSES + _density.harnesses_c10()
+from harness import spal as _spal  # noqa: E402
+HARNESSES = HARNESSES + _spal.harnesses_c10()
 
 BOUNDS = dict(quick="streams of <= 3 instances, ALL compositions into chunks, w=3, symbolic budget (BIQF: budget 0.5, "
                     "window history <= 2), symbolic and fresh pre-states",
